@@ -514,7 +514,7 @@ func init() {
 	reg("C08", "one case = one generated history over >= 4 windows; non-trivial = at least one missed vote was accounted; distinct by hash of the request log",
 		[]string{"c08.missed_votes"}, map[string]int64{"c08.votes": 5000, "c08.downtime_punishments": 10}, false)
 	reg("C09", "one case = one generated history; non-trivial = a jailing or an unjail attempt occurred; distinct by hash of the request log",
-		[]string{"c09.jailings", "c09.unjail_success", "c09.unjail_refused"}, map[string]int64{"c09.jailings": 10, "c09.unjail_refused": 10, "c09.jailed_checked": 50, "c09.unjail_exactly_at_jailed_until": 5, "c09.unjail_refused_one_second_early": 3, "c09.unjail_success": 10, "c09.tombstones": 3}, false)
+		[]string{"c09.jailings", "c09.unjail_success", "c09.unjail_refused"}, map[string]int64{"c09.jailings": 10, "c09.unjail_refused": 10, "c09.jailed_checked": 50, "c09.unjail_exactly_at_jailed_until": 5, "c09.unjail_refused_one_second_early": 3, "c09.unjail_success": 10, "c09.tombstones": 3, "c09.unjail_refused_below_raised_minimum": 3, "c09.double_sign_while_already_jailed": 2}, false)
 	reg("C10", "one case = one generated history; non-trivial = a block distributed non-zero fees or minted an award; distinct by hash of the request log",
 		[]string{"c10.nonzero_fee_blocks", "c10.award_blocks"}, map[string]int64{"c10.nonzero_fee_blocks": 200, "c10.award_blocks": 100, "c10.fee_blocks_unknown_proposer": 10}, false)
 	reg("C11", "one case = one generated history with hostile bytes and read-only traffic; non-trivial = contains a rejected DeliverTx or a read-only call; distinct by hash of the request log",
